@@ -67,4 +67,3 @@ def _nt_post(a, ret, st):
 
 
 nt.ensures("bound", _nt_post)
-
